@@ -57,7 +57,7 @@ func init() {
 		RequiredProbes: []string{"reject.claim.escrow-underfunded", "claim.perturbed-rejected"}})
 
 	c02 := &l1Profile{Prop: "C02", Blocks: [2]int{12, 60}, MaxTx: 6, Periods: []time.Duration{time.Second, 2 * time.Second, 10 * time.Second}, Crash: 10, Byz: 8,
-		W:       map[string]int{"create": 4, "deposit": 14, "propose": 16, "delete": 8, "claim": 60, "updProposer": 1},
+		W:       map[string]int{"create": 4, "deposit": 14, "propose": 16, "delete": 8, "claim": 60, "updProposer": 1, "multi": 5},
 		NonTriv: func(w *l1World) bool { return w.succ["claim"] >= 2 }}
 	core.Register(&core.Scenario{ID: "C02", Level: "exploration", Run: runL1(c02), Components: l1Components, Assumptions: l1Assume,
 		Rule: "seeded histories of propose / delete / re-propose (cumulative trees carrying earlier leaves) and claims of the same withdrawal by several submitters against every output that contains it, same block and across blocks, with crash between FinalizeBlock and Commit and block replay; oracle: per (bridge, withdrawal) at most one successful finalisation, Claimed query true exactly for paid withdrawals, ledger equality; non-trivial = >=2 successful claims",
@@ -65,7 +65,7 @@ func init() {
 		RequiredProbes: []string{"reject.claim.already-claimed"}})
 
 	c03 := &l1Profile{Prop: "C03", Blocks: [2]int{10, 50}, MaxTx: 8, Periods: []time.Duration{time.Second, 2 * time.Second, time.Hour}, Byz: 75,
-		W:       map[string]int{"create": 4, "deposit": 14, "propose": 16, "delete": 5, "claim": 70},
+		W:       map[string]int{"create": 4, "deposit": 14, "propose": 16, "delete": 5, "claim": 70, "multi": 6},
 		NonTriv: func(w *l1World) bool { return w.succ["claim"] >= 1 && w.r.Probes["claim.perturbed-rejected"] >= 3 }}
 	core.Register(&core.Scenario{ID: "C03", Level: "exploration", Run: runL1(c03), Components: l1Components, Assumptions: l1Assume,
 		Rule: "every valid claim is also submitted under single- and double-field perturbations (20 mutators: bit flips, swaps, other bridge / output / sequence / denom, amount +-1, *2, +2^64, proof truncation / extension / permutation, inner node or leaf as sibling, empty proof) in all oracle states; oracle: an independent verifier (opsim/prover) decides admissibility, rejected claims leave all state unchanged; non-trivial = >=1 accepted claim and >=3 rejected perturbed claims",
@@ -74,7 +74,7 @@ func init() {
 
 	c05 := &l1Profile{Prop: "C05", Blocks: [2]int{15, 70}, MaxTx: 4, Crash: 5, Byz: 5, BadCfg: 20,
 		Periods: []time.Duration{1, 999 * time.Millisecond, time.Second, 1500 * time.Millisecond, 10 * time.Second, time.Hour, 7 * 24 * time.Hour, 1<<63 - 1},
-		W:       map[string]int{"create": 8, "deposit": 10, "propose": 25, "delete": 20, "claim": 35, "updProposer": 3, "updChallenger": 3, "batchInfo": 3, "metadata": 2, "oracleCfg": 1},
+		W:       map[string]int{"create": 8, "deposit": 10, "propose": 25, "delete": 20, "claim": 35, "updProposer": 3, "updChallenger": 3, "batchInfo": 3, "metadata": 2, "oracleCfg": 1, "multi": 5},
 		NonTriv: func(w *l1World) bool { return w.succ["claim"] >= 1 && w.succ["delete"] >= 1 }}
 	core.Register(&core.Scenario{ID: "C05", Level: "exploration", Run: runL1(c05), Components: l1Components, Assumptions: l1Assume,
 		Rule: "clock-centric histories: bridges offered with periods from 1 ns to 2^63-1 ns and hostile (zero / negative) ones, propose / delete / re-propose / claim / role changes along non-decreasing block times that target the instants just before, at and after each finality boundary; oracle stated in real time with an explicit 1 s ambiguity band, observations inside the band must agree with each other and finality is irreversible; non-trivial = >=1 successful claim and >=1 successful deletion",
